@@ -142,6 +142,8 @@ def rec_pair(seed):
             qkw['xpeak'], qkw['ypeak'] = rng.randint(2, w - 3), rng.randint(2, h - 3)     # the search box around the guess decides which peak is fitted
         if rng.random() < 0.6:
             rel = 'transpose'
+        if 'xpeak' in qkw and rng.random() < 0.5:
+            rel = 'maskedvalues'      # a masked (and poisoned) pixel inside the search box around the guess
     y, x = np.mgrid[:h, :w]
     data = np.zeros((h, w))
     for _ in range(rng.randint(1, 2)):
@@ -157,6 +159,8 @@ def rec_pair(seed):
     mask = None
     if rel == 'maskedvalues' or rng.random() < 0.3:
         mask = np.random.default_rng(seed + 1).random((h, w)) < 0.06
+        if qkw and 'xpeak' in qkw:
+            mask[min(h - 1, qkw['ypeak'] + 1), max(0, qkw['xpeak'] - 1)] = True
     d2, m2 = data, mask
     if rel == 'flipx':
         d2, m2 = data[:, ::-1], None if mask is None else mask[:, ::-1]
